@@ -43,8 +43,8 @@ CLAIMS = {
             "4", "radix-range guards precede any read; empty input outcomes; from_radix_be/le pair with the matching endianness terminal (never the opposite one); complete byte-to-digit table; FromStr == from_str_radix(.., 10) (also at digit count 1); sign / boundary / invalid-character texts through from_str_radix, parse_bytes, FromStr and num_traits::Num::from_str_radix around the parser core; rule T: no branch of the parsers rejects (overflow kind / None) without depending on the bytes of the input, so zero-padded numerals of any length are not refused by length; only the radix panic is reachable",
             "NOT decided: grammar / value / error kinds inside the loops of from_buf_radix_internal (trusted by contract for radix <= 255). The leading-zero defect the statement mentions was found by rule T and fixed (a116b27)."),
     "C11": ("G+F+P", "guard-tree evaluation; normal-form equality; panic reachability",
-            "4", "radix guards and the zero case of to_radix_be/le, radix-class dispatch, signed == unsigned on the bit pattern, the parse table accepts every digit character the printer emits, only radix panics reachable",
-            "NOT decided: the numerals produced by the conversion loops."),
+            "4", "radix guards of to_radix_be/le, radix-class dispatch (the exact bit slicer is never reached for a radix whose log2 does not divide the digit width), signed == unsigned on the bit pattern, the parse table accepts every digit character the printer emits, only radix panics reachable",
+            "NOT decided: the numerals produced by the conversion loops, the zero case (vector results are not modelled)."),
     "C12": ("F+G", "forwarding shape and guard evaluation of the arguments handed to Formatter::pad_integral",
             "4", "THIN CLAIM - only these clauses: Debug == Display; signed Binary/Octal/LowerHex/UpperHex format the two's-complement bit pattern through the unsigned impl of the same trait; signed Display/LowerExp/UpperExp pass (value >= 0, \"\", text of the magnitude via the same trait) to pad_integral; unsigned Display/Octal pass the radix-10/radix-8 numeral and the right prefix",
             "NOT decided: the produced text (per-digit assembly, interior zero padding, exponent form, width/fill/alignment/flag handling) - i.e. almost all of the statement. These clauses are necessary conditions only."),
